@@ -65,4 +65,4 @@ impl Prop for C06 {
 pub fn f10_fixed() -> bool {
     std::env::var_os("BV_F10_FIXED").is_some() || F10_FIXED
 }
-pub const F10_FIXED: bool = false;
+pub const F10_FIXED: bool = true;
